@@ -378,3 +378,39 @@ pub fn put_result_truthful(pre: &[&Abs], post: &[&Abs], k: u8, v: u8, r: PR) -> 
         }
     }
 }
+
+impl Abs {
+    /// every entry of self occurs in `o` with the same value, in the same relative order
+    pub fn subseq_of(&self, o: &Abs) -> bool {
+        let mut ok = true;
+        let mut from = 0usize; // next index of o that may still match
+        let mut i = 0;
+        while i < NMAX {
+            if i < self.n {
+                let mut found = false;
+                let mut j = 0;
+                while j < NMAX {
+                    if !found && j >= from && j < o.n && o.k[j] == self.k[i] && o.v[j] == self.v[i] {
+                        found = true;
+                        from = j + 1;
+                    }
+                    j += 1;
+                }
+                if !found {
+                    ok = false;
+                }
+            }
+            i += 1;
+        }
+        ok
+    }
+
+    /// self without its first entry
+    pub fn tail(&self) -> Abs {
+        if self.n == 0 {
+            *self
+        } else {
+            self.remove_at(0)
+        }
+    }
+}
